@@ -40,6 +40,30 @@ var selS = []selInfo{
 	{"T:first-child", true, sp(0, 1, 1), sp(0, 1, 1)},
 	{"*", true, sp(0, 0, 0), sp(0, 0, 0)},
 	{"#z,T", true, sp(0, 0, 1), sp(1, 0, 0)},
+	// selector lists in which several members match the probe element with different
+	// specificities: a rule weighs, for an element, as its MOST SPECIFIC MATCHING member
+	// (Selectors 4 §17: a list is the union of its members; Cascade 4 §6.4.3), in whatever
+	// position that member is; "&" weighs as the most specific member, matching or not.
+	{"T,#i", true, sp(1, 0, 0), sp(1, 0, 0)},
+	{"#i,T", true, sp(1, 0, 0), sp(1, 0, 0)},
+	{"T,.c,#i", true, sp(1, 0, 0), sp(1, 0, 0)},
+	{"*,T.c", true, sp(0, 1, 1), sp(0, 1, 1)},
+	{"T,#z,.c", true, sp(0, 1, 0), sp(1, 0, 0)}, // a non-matching member between two matching ones
+	{".c,q,T", true, sp(0, 1, 0), sp(0, 1, 0)},  // the same with the most specific matching member first
+}
+
+// coreSel is the number of leading entries of selS used by every rule carrier; the
+// multi-match lists after them are used by the carriers listed in listKinds.
+const coreSel = 10
+
+var listKinds = map[string]bool{"ua": true, "user": true, "style": true, "nest&": true, "nestrel": true}
+
+// selsFor returns the selectors a carrier kind is instantiated with.
+func selsFor(kind string) []selInfo {
+	if listKinds[kind] {
+		return selS
+	}
+	return selS[:coreSel]
 }
 
 // selectors that do not match the probe element
@@ -66,6 +90,15 @@ func selByText(t string) selInfo {
 		}
 	}
 	panic("c03: unknown selector " + t)
+}
+
+func selIndex(t string) int {
+	for i, s := range selS {
+		if s.text == t {
+			return i
+		}
+	}
+	return -1
 }
 
 func addSpec(a, b [3]int) [3]int { return [3]int{a[0] + b[0], a[1] + b[1], a[2] + b[2]} }
@@ -178,11 +211,11 @@ var bools = []bool{false, true}
 // fullSet is the carrier-instance menu of the pair space.
 func fullSet() []inst {
 	var out []inst
-	for _, s := range selS {
+	for _, s := range selsFor("ua") {
 		out = append(out, ruleInst("ua", s.text, false))
 	}
 	for _, k := range []string{"user", "style", "link", "import", "media-print", "nest&", "nest&.c", "nestrel", "nest2"} {
-		for _, s := range selS {
+		for _, s := range selsFor(k) {
 			for _, imp := range bools {
 				out = append(out, ruleInst(k, s.text, imp))
 			}
@@ -225,7 +258,9 @@ func reducedSet() []inst {
 	}
 	for _, k := range []string{"user", "style", "link", "import", "media-print", "nest&"} {
 		for _, s := range selS {
-			keep := k == "style" || k == "nest&" // the full selector set for plain and nested <style> rules
+			// the whole selector set (multi-match lists included) for plain <style> rules,
+			// the core set for "&" nested rules
+			keep := k == "style" || (k == "nest&" && selIndex(s.text) < coreSel)
 			for _, r := range rs {
 				keep = keep || r == s.text
 			}
@@ -887,6 +922,9 @@ func selfTest() error {
 		{"nested rule after a declaration wins the tie (CSS Nesting)", []inst{st("T", false), ruleInst("nest&", "T", false)}, varMerge, true, [2]int{1, 1}},
 		{"declaration after a nested rule: the two drafts differ", []inst{ruleInst("nest&", "T", false), st("T", false)}, varMerge, true, [2]int{1, 0}},
 		{"& has the specificity of :is(parent list)", []inst{ruleInst("nest&", "#z,T", false), st(".c", false)}, varShare, true, [2]int{0, 0}},
+		{"a list weighs as its most specific matching member, wherever it is", []inst{st("T,#i", false), st(".c", false)}, varShare, true, [2]int{0, 0}},
+		{"a list weighs as its most specific matching member (2)", []inst{st("*,T.c", false), st(".c", false)}, varShare, true, [2]int{0, 0}},
+		{"non-matching members of a list do not count", []inst{st("T,#z,.c", false), st("T.c", false)}, varShare, true, [2]int{1, 1}},
 		{"relative nested selector adds the parent", []inst{ruleInst("nestrel", "T", false), st("T", false)}, varShare, true, [2]int{0, 0}},
 	}
 	for _, c := range cases {
